@@ -53,6 +53,8 @@ def evaluate(chk, pid, cases, gens, gos, models, stats, samples):
                                     "go": {k2: go.get(k2) for k2 in ("outcome", "errKind", "errPayload", "postings")}})
         if o.get("apiDiff"):
             failures.append((c, go, m, ["the public API (numscript.Parse(..).Run / RunWithFeatureFlags) does not return what the interpreter computes: %s" % "; ".join(o["apiDiff"])[:600]]))
+        if go.get("mutated"):
+            failures.append((c, go, m, ["the run modified what it was handed (%s): the store's own numbers / the caller's maps are inputs" % go["mutated"]]))
         if o.get("altDiff"):
             failures.append((c, go, m, ["a second run of the same parse result with other variable values / balances differs from a run of a fresh parse with them: %s" % o["altDiff"][:600]]))
         if o.get("prefixMismatch"):
@@ -322,6 +324,9 @@ def extra_C10(chk, cases, gens, gos, stats):
                 continue
             g2 = runner.go_projection(oo["go"])
             g2.pop("queries", None)
+            if oo["go"].get("mutated"):
+                # a store that hands over numbers it keeps must find them unchanged: its later answers depend on them
+                fails.append((sub[4 * i + j], oo["go"], None, ["the run changed the content of the %s store (%s): what the store answers next depends on it" % (label, oo["go"]["mutated"])]))
             if g2 != ref:
                 fails.append((sub[4 * i + j], oo["go"], {"exact_store_result": ref},
                               ["result under the %s store differs from the result under the exact store" % label]))
